@@ -848,6 +848,9 @@ class Element(ABC):
                 )
 
             value = float(value)
+            if isnan(value):
+                raise ValueError(f"Expected a number instead of {value=} for {key=}")
+
             if value >= self._parameter_upper_limit[key]:
                 raise ValueError(
                     f"Expected the new value of {key=} ({value}) to be less than the current upper limit of {self._parameter_upper_limit[key]}"
@@ -991,6 +994,9 @@ class Element(ABC):
                 )
 
             value = float(value)
+            if isnan(value):
+                raise ValueError(f"Expected a number instead of {value=} for {key=}")
+
             if value <= self._parameter_lower_limit[key]:
                 raise ValueError(
                     f"Expected the new value of {key=} ({value}) to be greater than the current lower limit of {self._parameter_lower_limit[key]}"
